@@ -20,8 +20,13 @@ vars == <<prog, dim, anchor, phase, cur, focus, nd, rk>>
 D0 == [op |-> "", dst |-> 1, src |-> 0, n |-> 0, topo |-> "G", k |-> "x", var |-> 0, den |-> 1, mod |-> 0,
        v |-> <<>>, w |-> <<>>, vs |-> <<>>, cs |-> <<>>, gs |-> <<>>]
 Init == /\ prog = <<>> /\ dim = [s \in Slots |-> -1]
-        /\ anchor = [s \in Slots |-> [i \in 1..MaxDim |-> RE(-1..1)]]
-        /\ phase = "op" /\ cur = "none" /\ focus = 1 /\ nd \in {RE(0..3)} /\ rk \in {IF "chain" \in OpSet THEN "chain" ELSE RE({"op", "op", "twin"})}
+        /\ anchor = [s \in Slots |-> [i \in 1..MaxDim |-> 0]]
+        /\ phase = "setup" /\ cur = "none" /\ focus = 1 /\ nd = 0 /\ rk = "op"
+\* (Init is evaluated once per TLC run: the per-history random draws are made by this first step)
+Setup == /\ phase = "setup" /\ phase' = "op"
+         /\ anchor' = Mat([s \in 1..3 |-> Mat([i \in 1..MaxDim |-> RE(-1..1)])])
+         /\ nd' \in {RE(0..3)} /\ rk' \in {IF "chain" \in OpSet THEN "chain" ELSE RE({"op", "op", "twin"})}
+         /\ UNCHANGED <<prog, dim, cur, focus>>
 Alive(s) == dim[s] >= 0
 AliveS == {s \in Slots : Alive(s)}
 \* congruence (mod md, md = 0: equality) over n dimensions that the integer anchor a satisfies:  t.x - t.a + md*j = 0 (mod md)
@@ -173,7 +178,7 @@ Args ==
              \/ cur = "dumpload" /\ Emit([D0 EXCEPT !.op = cur, !.dst = t, !.src = s, !.n = dim[t]])
                   /\ dim' = [dim EXCEPT ![s] = dim[t]] /\ anchor' = [anchor EXCEPT ![s] = anchor[t]]
              \/ cur = "destroy" /\ RE(1..4) = 1 /\ Emit([D0 EXCEPT !.op = cur, !.dst = s]) /\ dim' = [dim EXCEPT ![s] = -1] /\ UNCHANGED anchor
-Next == ChooseOp \/ Args
+Next == Setup \/ ChooseOp \/ Args
 Spec == Init /\ [][Next]_vars
 EmitProg == ((IF Recipe THEN Len(prog) = RecipeLen ELSE Len(prog) \in {MaxLen \div 2, MaxLen}) /\ phase = "op") => PrintT(<<"PROG", ToJson(prog)>>)
 =====================================================================
